@@ -86,10 +86,18 @@ def run(ctx) -> None:
             rec["file"] = fe["out"]
         if fe.get("sym") is not None:
             ents = []
+            names = set(label_names(pt["ndef"], k)) | {"inloop"}
             for line in fe["sym"].splitlines():
                 m = re.match(r"^\s*([0-9a-fA-F]+)\s*:\s*([0-9a-fA-F]+)\s+(\S+)\s*$", line)
                 if m:
                     ents.append([m.group(3), int(m.group(1), 16), int(m.group(2), 16)])
+                    continue
+                # any other line format: a known label name plus a bank and an offset as hexadecimal numbers
+                words = re.findall(r"[A-Za-z_][A-Za-z0-9_.]*", line)
+                nm = next((w for w in words if w in names), None)
+                nums = [int(x, 16) for x in re.findall(r"(?<![A-Za-z_])(?:0x|\$)?([0-9a-fA-F]{1,6})(?![A-Za-z_0-9])", line)]
+                if nm and len(nums) >= 2:
+                    ents.append([nm, nums[0], nums[1]])
             rec["sym"] = ents
             rec["names"] = label_names(pt["ndef"], k)
         recs.append(rec)
